@@ -235,7 +235,7 @@ def subsets(vs, rng, limit):
 
 
 def check(run: Run, tier: str, seed: int):
-    n = 60 if tier == "quick" else 900
+    n = 120 if tier == "quick" else 900
     for i in range(n):
         cls, opts, semirings = CLASSES[i % len(CLASSES)]
         srng = random.Random(f"C03-{seed}-{i}")
